@@ -3,8 +3,8 @@ package sim
 import (
 	"fmt"
 	"runtime"
-	"strings"
 	"sort"
+	"strings"
 	"testing/synctest"
 )
 
